@@ -2,7 +2,8 @@
    Only statements, each closed by [exact], each followed by Print Assumptions.
    Model: Codec/Charset.v (sql/encodings/rangemap.go); tables: gen/C30Tables.v (translated from sql/encodings/*.go).
    Strings are lists of bytes; the Go side of every table ("output") is UTF-8, the "input" side the character set.
-   [encode rm s hid] is RangeMap.Encode on a slice with content s and hidden capacity content hid. *)
+   [encode rm s hid] is RangeMap.Encode on a slice with content s and hidden capacity content hid (irrelevant
+   since Encode checks the length before slicing). *)
 From Coq Require Import List NArith.
 Import ListNotations.
 From GMS Require Import Codec.Charset Codec.CharsetProofs Codec.CharsetTables gen.C30Tables.
@@ -76,14 +77,19 @@ Theorem C30_translated_tables_exact :
 Proof. exact (conj exact_tables_are exact_tables_wf). Qed.
 Print Assumptions C30_translated_tables_exact.
 
-(* "no byte sequence, valid or not, makes a conversion crash" is FALSE of Encode: it slices str[:n] without the
-   length guard that Decode has.  Witnesses: a truncated UTF-8 tail (C3), and the VALID UTF-8 string E6 97 A5
-   (one character that latin1 lacks) alone or after 'a'. *)
-Theorem C30_encode_never_panics_refuted :
-  exists rm, In rm all_tables /\ encode rm [195] [] = Panic /\ encode rm [230; 151; 165] [] = Panic /\
-             encode rm [97; 230; 151; 165] [] = Panic.
-Proof. exact (ex_intro _ Latin1 encode_panics_witness). Qed.
-Print Assumptions C30_encode_never_panics_refuted.
+(* no byte sequence, valid or not, makes Encode crash (true since commit 014a463e8 gave Encode the length guard
+   that Decode has; before, an unencodable tail shorter than the longest code made it slice past the end) *)
+Theorem C30_encode_never_panics : forall rm s hid, wf_map rm = true -> encode rm s hid <> Panic.
+Proof. exact encode_never_panics. Qed.
+Print Assumptions C30_encode_never_panics.
+
+(* the former crash inputs are reported (ok = false): a truncated UTF-8 tail (C3), and the VALID UTF-8 string E6 97 A5
+   (one character that latin1 lacks) alone or after 'a' *)
+Theorem C30_encode_reports_short_unencodable_tail :
+  exists rm, In rm all_tables /\ encode rm [195] [] = Fail /\ encode rm [230; 151; 165] [] = Fail /\
+             encode rm [97; 230; 151; 165] [] = Fail /\ encode rm [195] [169] = Fail.
+Proof. exact (ex_intro _ Latin1 encode_reports_short_tail). Qed.
+Print Assumptions C30_encode_reports_short_unencodable_tail.
 
 (* A fact, NOT a violation of the property (invalid UTF-8 holds no characters; only "no crash" is demanded there):
    Utf16/Utf32 Encode accept byte sequences that are no characters (UTF-8-encoded surrogate; value above U+10FFFF)
